@@ -173,8 +173,14 @@ func (s *scanner) Next() (*hrpc.Result, error) {
 
 	select {
 	case <-s.rpc.Context().Done():
-		s.Close()
-		return nil, s.rpc.Context().Err()
+		if !s.closed {
+			s.Close()
+			// the scan ends here: subsequent calls return io.EOF
+			s.results = nil
+			return nil, s.rpc.Context().Err()
+		}
+		// The context error has been reported, or the scanner had been closed
+		// before: only what is still buffered (if anything) is left, then io.EOF.
 	default:
 	}
 
